@@ -150,7 +150,15 @@ EXPORT errno_t _wcrtomb_s_chk(size_t *restrict retvalp, char *restrict dest,
         }
     }
 
-    len = *retvalp = wcrtomb(dest, wc, ps);
+    if (dest) {
+        /* wcrtomb stores up to MB_CUR_MAX bytes: convert into a local buffer, copy what fits */
+        char mb[MB_LEN_MAX];
+        len = *retvalp = wcrtomb(mb, wc, ps);
+        if (len < dmax)
+            memcpy(dest, mb, len);
+    } else {
+        len = *retvalp = wcrtomb(dest, wc, ps);
+    }
 
     if (likely(len < dmax)) {
         if (dest) {
